@@ -3,14 +3,22 @@ import json, os
 from ctvlib import *
 
 
+_SCENARIO_CACHE = {}
+
+
 def vectors(chk, module, cases, cfgs, props, invariants, workers=8, timeout=1800, tag=None):
     """TLC scenario -> vectors -> replay on the real code -> adjudicate mismatches with the trace
     specification.  `props`: the properties for which agreement with the model ON THESE VECTORS is
     the property itself."""
     for cfg in cfgs:
         run = "%s.%s.%s.%s" % (chk.prop, module, cases, cfg)
-        r = run_scenario(module, cfg, cases, invariants, workers=workers, timeout=timeout, run=run)
-        chk.add_tlc(r)
+        key = (module, cases, tuple(invariants), "", fset(cfg))
+        if key in _SCENARIO_CACHE:       # same modelled feature set (e.g. all / all+log): same vectors
+            r = _SCENARIO_CACHE[key]
+        else:
+            r = run_scenario(module, cfg, cases, invariants, workers=workers, timeout=timeout, run=run)
+            chk.add_tlc(r)
+            _SCENARIO_CACHE[key] = r
         judge_vectors(chk, cfg, r, run, props)
 
 
@@ -50,7 +58,10 @@ def plan_C01(chk, tier, seed):
            ["TypeOK", "DecodeTotal", "DecodeFaithful", "Emit"], cases="C01_Cases",
            extra_constants="    Deep = %s\n" % ("TRUE" if tier == "thorough" else "FALSE"), workers=14)
     return ("every subset of optional parameters of every parameter-bearing command, every subset of optional "
-            "members of every nested map, full requests, every sub-command; TLC checks DecodeFaithful / "
+            "members of every nested map, full requests, every sub-command, every member over the lattice of its type one "
+            "at a time, every pair of members at the extremes and every triple at the upper ends, one odd entry at "
+            "every position of the long lists, requests whose members are each legal and whose total crosses the "
+            "7609-byte transport limit (7608..16384); TLC checks DecodeFaithful / "
             "KeyAttribution on the model and emits one vector per case, replayed through "
             "ctap2::Request::deserialize; a vector is non-trivial when it decodes a distinct message")
 
@@ -101,27 +112,40 @@ def value_traces(chk, cfg, module, cases, n, seed, run, extra=""):
     return drive_and_validate(chk, cfg, "mutate:" + r["vec_path"], n, seed, ENC_PROPS, run, shards=6)
 
 
+def reused_buffers(chk, prop):
+    """Responses serialised into buffers that are NOT fresh (previous contents of several shapes,
+    two-exchange histories): what the property says about the emitted bytes must not depend on it."""
+    inv = ["TypeOK", "FitsOrOneByteError", "Emit"]
+    simple(chk, "MC_Buffer", ["all"], [prop], inv, cases="StatusCases")
+    simple(chk, "MC_Buffer", ["all"], [prop], inv, cases="MC_HistCases", max_exchanges=2)
+
+
 def plan_C02(chk, tier, seed):
     cfgs = ["none", "all"] if tier == "quick" else ALL8
-    vectors(chk, "MC_Responses", "MC_Cases", cfgs, ["C02"], RESP_INV)
+    vectors(chk, "MC_Responses", "MC_Cases" if tier == "quick" else "MC_CasesDeep", cfgs, ["C02"], RESP_INV)
+    reused_buffers(chk, "C02")
     value_traces(chk, "all", "MC_Responses", "MC_Cases", 1500 if tier == "quick" else 30000, seed, "C02.values")
     return ("every subset of the optional members of every response kind (exhaustive up to 9 optional members, "
             "otherwise {}, all pairs, full), statement shapes, COSE key kinds, integer/byte/list lattices; TLC checks "
             "EncodeExact on the model (generic parser vs table) and emits vectors replayed through "
-            "ctap2::Response::serialize and cbor_serialize; deviating vectors are adjudicated by the trace "
+            "ctap2::Response::serialize and cbor_serialize; member pairs / triples at the extremes of their types; every "
+            "kind of response into buffers that are not fresh (1..20 previous bytes, two-exchange histories); "
+            "deviating vectors are adjudicated by the trace "
             "specification on the OBSERVED bytes (same pair set, status byte, no null)")
 
 
 def plan_C03(chk, tier, seed):
     cfgs = ["none", "all"] if tier == "quick" else ALL8
-    vectors(chk, "MC_Responses", "MC_Cases", cfgs, ["C03"], RESP_INV)
+    vectors(chk, "MC_Responses", "MC_Cases" if tier == "quick" else "MC_CasesDeep", cfgs, ["C03"], RESP_INV)
+    reused_buffers(chk, "C03")
     value_traces(chk, "all", "MC_Responses", "MC_Cases", 1500 if tier == "quick" else 30000, seed + 1, "C03.values")
     if tier == "thorough":
         value_traces(chk, "all", "MC_AuthData", "MC_Cases", 10000, seed + 2, "C03.authdata.values", extra="    Deep = FALSE\n")
     return ("every pair of members of every serialisable map type (plus exhaustive subsets of the small ones) in "
             "each feature configuration, integers across the 1/2/3/5/9-byte head thresholds; TLC checks "
-            "OutputCanonical on the model; the observed bytes of every deviating vector are judged by "
-            "IsCanonical in the trace specification")
+            "OutputCanonical on the model; byte strings and integers whose encoding ends like another encoding; every "
+            "kind of response into buffers that are not fresh; the observed bytes of every deviating vector are "
+            "judged by IsCanonical in the trace specification")
 
 
 def simulated_sessions(chk, cfg, nbeh, seed, run, props):
@@ -219,7 +243,9 @@ def plan_C17(chk, tier, seed):
             "(1..130, 254..258, 1022..1026, 3070..3074, 64, 256, 1024, 3072, 7609), all-unset and body-less "
             "responses at N=1,2,3, planted previous contents, two-exchange histories over a reused buffer; the "
             "harness additionally serialises every response into a buffer with different previous contents and "
-            "into the 7609-byte buffer; the full response of every kind against EVERY capacity up to its length; "
+            "into the 7609-byte buffer; the full response of every kind against EVERY capacity up to its length; the "
+            "largest value of every response kind and every pair / triple of members at the extremes against "
+            "capacities len-1, len, len+1, 1024, 3072, 7609; "
             "complete exchanges (decode, dispatch, encode) in two-exchange histories with the liveness property "
             "ExchangeTerminates; random behaviours of up to 8 exchanges from tlc -simulate replayed as sessions over "
             "one real buffer object; judged on the observed bytes: a complete message iff it fits, else exactly 0x7F")
@@ -273,12 +299,17 @@ PLANS.update({"C02": plan_C02, "C03": plan_C03, "C17": plan_C17})
 def simple(chk, module, cfgs, props, invariants, cases="MC_Cases", extra_constants="", workers=8, timeout=3000, max_exchanges=1):
     for cfg in cfgs:
         run = "%s.%s.%s.%s" % (chk.prop, module, cases, cfg)
-        r = tlc(module, scenario_cfg(cfg, cases, invariants, max_exchanges, extra_constants), run,
-                workers=workers, timeout=timeout)
-        if not r["ok"]:
-            raise ToolError("TLC scenario %s failed (model-level):\n%s" % (run, "\n".join(r["log"][-40:])))
-        log("TLC %s: %d distinct states, %d vectors, %.1fs" % (run, r["distinct"], r["n_vec"], r["wall"]))
-        chk.add_tlc(r)
+        key = (module, cases, tuple(invariants), extra_constants + str(max_exchanges), fset(cfg))
+        if key in _SCENARIO_CACHE:       # same modelled feature set (e.g. all / all+log): same vectors
+            r = _SCENARIO_CACHE[key]
+        else:
+            r = tlc(module, scenario_cfg(cfg, cases, invariants, max_exchanges, extra_constants), run,
+                    workers=workers, timeout=timeout)
+            if not r["ok"]:
+                raise ToolError("TLC scenario %s failed (model-level):\n%s" % (run, "\n".join(r["log"][-40:])))
+            log("TLC %s: %d distinct states, %d vectors, %.1fs" % (run, r["distinct"], r["n_vec"], r["wall"]))
+            chk.add_tlc(r)
+            _SCENARIO_CACHE[key] = r
         judge_vectors(chk, cfg, r, run, props)
 
 
@@ -299,7 +330,8 @@ def plan_C05(chk, tier, seed):
 def plan_C11(chk, tier, seed):
     simple(chk, "MC_Commands", ["none", "all"], ["C11"], ["TypeOK", "DecodeTotal", "CommandTableTotal", "Emit"])
     chk.exhaustive = True
-    return ("all 256 command bytes x 12-13 payload classes through ctap2::Request::deserialize, and all 256 bytes "
+    return ("all 256 command bytes x 12-13 payload classes through ctap2::Request::deserialize, 12 command bytes of every "
+            "kind followed by 1023..20000 bytes (past the 7609-byte transport limit), and all 256 bytes "
             "through Operation::try_from / u8::from / VendorOperation::try_from; TLC checks exactness, totality and "
             "injectivity of the table on the model (ASSUMEs + CommandTableTotal); the 256-value domain is enumerated "
             "completely on both sides")
@@ -307,11 +339,16 @@ def plan_C11(chk, tier, seed):
 
 def plan_C18(chk, tier, seed):
     simple(chk, "MC_Enums", ["none", "all"], ["C18"], ["TypeOK", "IdentifierTables", "Emit"])
+    # the status numbers the crate itself EMITS: Success in front of every payload, Other alone,
+    # on fresh buffers, on buffers with previous contents and in two-exchange histories
+    reused_buffers(chk, "C18")
     chk.exhaustive = True
     return ("every identifier table: each valid spelling, every single-character deletion / substitution / insertion, "
             "case variants, prefixes, extensions and the names of the other tables through TryFrom<&str> and through "
             "the CBOR decoder; all 256 numbers through TryFrom<u8> / the decoder plus threshold integers; permission "
-            "bits and from_bits over all 256 values; every status code number")
+            "bits and from_bits over all 256 values; every status code number; the status numbers the crate EMITS "
+            "(0x00 in front of every payload, 0x7F alone, nothing else) for every kind of response into fresh and "
+            "non-fresh buffers")
 
 
 PLANS.update({"C05": plan_C05, "C11": plan_C11, "C18": plan_C18})
@@ -332,7 +369,9 @@ PLANS.update({"C12": plan_C12})
 
 
 def plan_C13(chk, tier, seed):
-    cfgs = ["all"] if tier == "quick" else ["none", "all"]
+    # "all+log": the same vectors against the crate built with its logging statements compiled in
+    # (the over-long-icon path logs what it skips)
+    cfgs = ["all", "all+log"] if tier == "quick" else ["none", "all", "all+log", "none+log"]
     deep = "TRUE" if tier == "thorough" else "FALSE"
     simple(chk, "MC_Truncate", cfgs, ["C13"],
            ["TypeOK", "DecodeTotal", "DecodeFaithful", "TypeDecodeFaithful", "ExpectedOutcome", "TruncateOnBoundary", "Emit"],
@@ -342,7 +381,9 @@ def plan_C13(chk, tier, seed):
             "user.name / user.displayName / rp.name stand-alone and inside MakeCredential and CredentialManagement; "
             "user icon and rp icon/url at every length around 128 (thorough: 0..300); 15 kinds of ill-formed UTF-8 at "
             "positions across a 70-byte text in every text member; TLC checks the window lemma (the unsafe block's "
-            "precondition), operational window scan == declarative longest-prefix-on-a-boundary, valid UTF-8 and <= 64")
+            "precondition), operational window scan == declarative longest-prefix-on-a-boundary, valid UTF-8 and <= 64; "
+            "the same vectors against the crate built with its logging statements compiled in and a logger that "
+            "formats every record")
 
 
 def plan_C14(chk, tier, seed):
@@ -390,7 +431,9 @@ def plan_C07(chk, tier, seed):
             "of 0/77/200 bytes and credential-id lengths 0..8, +-3 around every fit/overflow frontier (thorough: every "
             "length 0..700) and 65534..70000; every subset of extension outputs in both flavours, also combined with "
             "attested data at the frontier; TLC checks the layout with an independent inverse (ParseBack at fixed "
-            "offsets) and the exact fit/overflow decision; vectors replayed through AuthenticatorData::serialize")
+            "offsets) and the exact fit/overflow decision; vectors replayed through AuthenticatorData::serialize; the "
+            "generic type also instantiated with a caller-defined extension-output type (two byte strings of up to "
+            "400 bytes) whose encoding runs across the 676-byte capacity")
 
 
 def plan_C08(chk, tier, seed):
@@ -417,14 +460,18 @@ def plan_C09(chk, tier, seed):
 
 
 def plan_C10(chk, tier, seed):
-    simple(chk, "MC_Dispatch", ["none", "all"], ["C10"], ["TypeOK", "ExactlyOneHandler", "Emit"])
+    # "all+log": the same vectors against the crate built with its logging statements compiled in
+    simple(chk, "MC_Dispatch", ["none", "all", "all+log"], ["C10"], ["TypeOK", "ExactlyOneHandler", "Emit"])
     # complete exchanges: decode -> dispatch -> handler -> encode, accepted and rejected requests
     simple(chk, "MC_Session", ["all"] if tier == "quick" else ["none", "all"], ["C10"],
            ["TypeOK", "DecodeTotal", "ExchangeDispatch", "ExchangeAnswer", "Emit"])
     return ("10 CTAP2 request variants (three vendor codes, both credential-management codes) x success and six "
             "distinct handler errors x authenticators with and without a large-blobs handler, 4 CTAP1 requests x "
             "success and three status words; a recording mock logs every handler invocation with the projected "
-            "arguments; both entry points (call_ctap2 / call_ctap1 and Rpc::call) are run and compared")
+            "arguments; both entry points (call_ctap2 / call_ctap1 and Rpc::call) are run and compared; every member of "
+            "every request over the lattice of its type, every pair at the extremes and every triple at the upper "
+            "ends (dispatch must not depend on what the request carries); the same vectors against the crate built "
+            "with its logging statements compiled in")
 
 
 PLANS.update({"C07": plan_C07, "C08": plan_C08, "C09": plan_C09, "C10": plan_C10})
@@ -433,12 +480,16 @@ PLANS.update({"C07": plan_C07, "C08": plan_C08, "C09": plan_C09, "C10": plan_C10
 def plan_C15(chk, tier, seed):
     cfgs = ["none", "all"] if tier == "quick" else ALL8
     simple(chk, "MC_RoundTrip", cfgs, ["C15"], ["TypeOK", "RoundTrip", "TypeDecodeFaithful", "OutputCanonical", "Emit"])
+    # the response side through ctap2::Response::serialize, into buffers that are not fresh
+    reused_buffers(chk, "C15")
     return ("every bidirectional type (ClientPin / CredentialManagement (+ parameters) / LargeBlobs requests; GetInfo / "
             "ClientPin / LargeBlobs responses; hmac-secret input; options; three extension maps; GetInfo options and "
             "certifications; rp, user, descriptors, parameters; COSE keys; all string- and number-valued enumerations) "
             "over the member-subset and value generators: from the model's canonical bytes the real code must decode "
             "the value AND re-encode to the same bytes, and for constructible types the value built through the "
-            "public API must encode to those bytes; the rp icon exception is asserted as such")
+            "public API must encode to those bytes; the rp icon exception is asserted as such; the response side also "
+            "through ctap2::Response::serialize into buffers that are not fresh (what comes out must carry the "
+            "key/value pairs of the value sent)")
 
 
 def plan_C16(chk, tier, seed):
@@ -509,7 +560,7 @@ def drive_and_validate(chk, cfg, driver, n, seed, props_by_op, run, shards=4):
     if r.returncode != 0 and not aborted:
         raise ToolError("driver %s failed: rc=%s %s" % (driver, r.returncode, r.stdout[-2000:]))
     events = []
-    for l in open(out):
+    for l in open(out, errors="replace"):
         try:
             events.append(json.loads(l))
         except ValueError:
@@ -557,10 +608,13 @@ def drive_and_validate(chk, cfg, driver, n, seed, props_by_op, run, shards=4):
 
 
 def plan_C19(chk, tier, seed):
-    n = 2000 if tier == "quick" else 60000
+    n = 4000 if tier == "quick" else 60000
     drive_and_validate(chk, "all+arb", "arbitrary", n, seed, {"arbitrary": ["C19"]}, "C19.arbitrary",
                        shards=8)
     return ("the crate's Arbitrary implementations for ctap1::Request, ctap2::Request and authenticator::Request run on "
+            "a complete sweep of the string window (windows of 1/4/64 bytes ending after the 1st, 2nd, 3rd byte of a "
+            "character x 17 classes of lead byte x 8 classes of the byte after the window), token streams, maximal "
+            "requests with position sweeps, "
             "all-zero / all-0xFF inputs of 19 boundary lengths, all 256 single-byte-repeated patterns at two lengths and "
             "seeded random strings biased towards UTF-8 lead / continuation bytes and ill-formed sequences; each run is "
             "one trace event (Generate, then dispatch on a recording mock) validated by TLC: the outcome is 'bytes ran "
@@ -600,7 +654,7 @@ def sweep_prefix(chk, cfg, table, depth, run):
         return {"checked": 0, "table": 0, "unspec": 0}
     if r.returncode != 0:
         raise ToolError("sweep failed: rc=%s %s" % (r.returncode, r.stdout[-2000:]))
-    recs = [json.loads(l) for l in open(out)]
+    recs = [json.loads(l) for l in open(out, errors="replace")]
     summary = [x for x in recs if x.get("summary")][0]
     mism = [x for x in recs if not x.get("summary")]
     log("sweep %s[%s]: %d inputs judged against %d table entries, %d mismatches" % (
@@ -666,6 +720,10 @@ def plan_C04(chk, tier, seed):
                 raise ToolError("TLC %s failed:\n%s" % (run, "\n".join(r["log"][-30:])))
             chk.add_tlc(r)
             judge_vectors(chk, cfg, r, run, ["C04"])
+            if cfg == "all":
+                # the same messages against the crate built with its logging statements compiled in:
+                # the arguments of a logging statement are code of the decode path too
+                judge_vectors(chk, "all+log", r, run + ".log", ["C04"])
             runs.append(r["vec_path"])
         # (iii) byte-level mutation of those messages, every event validated by the trace specification
         n = 3000 if tier == "quick" else 40000
@@ -679,7 +737,9 @@ def plan_C04(chk, tier, seed):
             "of every kind of value (C06) and the text-capacity corpus of C13 (names whose characters straddle the "
             "64-byte cut in every width pattern, icons around 128 bytes); (iii) seeded byte-level mutations (bit flips, interesting bytes, insertions, "
             "deletions, truncations, duplicated and spliced slices, +-1 on length heads) of those messages, each "
-            "decoded twice and validated by the trace specification (outcome, determinism, status set, model equality)" % depth)
+            "decoded twice and validated by the trace specification (outcome, determinism, status set, model equality); "
+            "the corpora of (ii) also against the crate built with its logging statements compiled in and a logger "
+            "that formats every record" % depth)
 
 
 PLANS.update({"C04": plan_C04})
